@@ -9,7 +9,7 @@ Import ListNotations.
 Open Scope string_scope.
 
 Definition views_by_design : list string :=
-  [ "data.NewInteger"; "data.ReadInteger"; "data.ReadI2PString"; "data.NewMapping"; "data.ReadMapping";
+  [ "data.NewInteger"; "data.ReadInteger"; "data.ReadI2PString"; "data.NewMapping"; "data.ReadMapping"; "data.ReadMappingValues";
     "router_address.ReadRouterAddress"; "router_info.ReadRouterInfo";
     "lease_set2.ReadLeaseSet2"; "meta_leaseset.ReadMetaLeaseSet" ].
 
